@@ -35,12 +35,17 @@ def run(ctx):
             if e.kind == 'call' and e.q.endswith('::update') and e.obj == ('this',):
                 return (stored, True, bad)
             return None
-        exits = abstract_run(A, f, (False, False, None), tr)
+        # private helpers of the element are part of the setter (a store moved into a helper is still a store of the setter)
+        own = lambda ev, callee, _cls=cls: (callee['q'].startswith(_cls + '::') or callee.get('cls') == _cls) and not callee['q'].endswith('::update')      # noqa: E731
+        exits = abstract_run(A, f, (False, False, None), tr, inline=own)
         sts = exits['normal']
-        bad = [s for s in sts if s[0] and not s[1]]
+        is_default = f['q'].endswith('set_default_value')
+        # a value given by the user is validated on every path (set_default_value may keep the user's value and do nothing)
+        bad = [s for s in sts if (s[0] and not s[1]) or (not is_default and not s[1])]
         stores = any(s[0] for s in sts)
         short = f['q'].replace(NS, '').replace('(anonymous namespace)::', '')
-        ctx.check(stores and not bad and bool(sts), 'R1', '%s: content stored, then update()' % short, where(f), 'exit states %s' % sorted(sts, key=repr), key='R1|%s|update after store' % short)
+        ctx.check(stores and not bad and bool(sts), 'R1', '%s: content stored, then update() - on every path for a value set by the user' % short, where(f),
+                  'exit states (stored, validated) %s%s' % (sorted(set(s[:2] for s in sts)), '' if not bad else ': a path returns without running the validation callback'), key='R1|%s|update after store' % short)
         if f['q'].endswith('set_string_value'):
             v = A.view(f)
             okp = False
@@ -52,6 +57,16 @@ def run(ctx):
                         while r[0] in ('cast', 'conv', 'ctor') and len(r) > 2 and r[2]:
                             r = r[2] if r[0] != 'ctor' else r[2][0]
                         okp = r[0] == 'call' and 'ConfigType<' in r[1] and r[1].endswith('::parse') and r[3] == (lib.parm_i(f, 0),)
+            if not okp:
+                # the parsed value may be handed to a private helper of the element that stores it
+                for p in v.paths():
+                    for e in v.path_events(p):
+                        if e.kind == 'call' and (e.q.startswith(cls + '::') or (A.resolve(e) or {}).get('cls') == cls) and e.args:
+                            r = e.args[0]
+                            while r[0] in ('cast', 'conv', 'ctor') and len(r) > 2 and r[2]:
+                                r = r[2] if r[0] != 'ctor' else r[2][0]
+                            if r[0] == 'call' and 'ConfigType<' in r[1] and r[1].endswith('::parse') and r[3] == (lib.parm_i(f, 0),):
+                                okp = True
             ctx.check(okp, 'R1', '%s stores ConfigType<T>::parse(value)' % short, where(f), '', key='R1|%s|parse identity' % short)
     ctx.require(len(tces) >= 8, 'R1', 'TypedConfigurationElement setters not found (%d)' % len(tces))
     ro = [f for f in P.fns.values() if 'Config::register_option<' in f['key'] and f.get('blocks')]
